@@ -51,6 +51,26 @@ def norm(v):
     return v
 
 
+def absent_like(chosen, present):
+    """a value that no item carries, but which would turn into the label of an item that was *not* asked for if it were
+    truncated or cast to the width / type of the stored labels ('c13' -> 'c130' with 3-character labels, 3 -> 3.5);
+    falls back to a value derived from a chosen label.  None if there is none"""
+    present = list(present)
+    others = [x for x in present if x not in chosen] or list(chosen)
+    strs = [x for x in others if isinstance(x, str)]
+    if strs:
+        w = max(len(x) for x in present if isinstance(x, str))
+        longest = [x for x in strs if len(x) == w] or strs
+        c = sorted(longest)[0] + '0'
+    else:
+        nums = [x for x in others if isinstance(x, (int, float)) and not isinstance(x, bool)]
+        if not nums:
+            return None
+        v = sorted(nums)[0]
+        c = v + 0.5 if isinstance(v, int) else v + 0.125
+    return None if c in present else c
+
+
 def normlist(seq):
     return [norm(x) for x in list(seq)]
 
